@@ -249,6 +249,8 @@ def run(chk: common.Check):
                 ref = hs
             else:
                 for k in ref:
+                    if (k[0], k[1], k[2]) not in comp:
+                        continue      # a donor whose residue lacks a chain neighbour can be a free rotor (one bonded atom): frame dependent by design
                     a, b = ref[k], hs.get(k, [])
                     if len(a) != len(b):
                         found.append(("hydrogen-set-depends-on-orientation:count", f"{name} {what}: {len(b)} hydrogens on {k[3]} of {k[1]}{k[0]}, {len(a)} as deposited", rep))
@@ -307,6 +309,16 @@ def run(chk: common.Check):
             nrm = [v1[1] * v2[2] - v1[2] * v2[1], v1[2] * v2[0] - v1[0] * v2[2], v1[0] * v2[1] - v1[1] * v2[0]]
             keys = {(ch, num, k) for k in ("NE", "CZ", "NH1", "NH2")}
             study(f"3SGB-subset protein, ARG {num}{ch} plane perpendicular to x", c04.pose_float(prot, c04.align(nrm, [1, 0, 0]), snap=(keys, 0)), [], 23)
+    # hetero atoms of elements without an entry in the X-H bond-length table (the standard value 1.0 A applies)
+    bb = structures.bbox(structures.read("sample-issue-140.pdb"))
+    ox, oy, oz = bb[0][1] + 12.0, bb[1][1] + 12.0, bb[2][1] + 12.0
+    lig = []
+    for k, (el, nm, dv) in enumerate((("SE", "SE", (1.4, 1.1, 0.8)), ("P", "P1", (1.3, 1.0, 0.85)), ("SI", "SI", (1.35, 1.05, 0.8)))):
+        c = (ox + 9.0 * k, oy, oz)
+        lig.append(f"HETATM{9100 + 2 * k:>5d}  C1  MX{k} L{301 + k:>4d}    {c[0]:8.3f}{c[1]:8.3f}{c[2]:8.3f}  1.00  0.00           C")
+        lig.append(f"HETATM{9101 + 2 * k:>5d} {nm:<4s} MX{k} L{301 + k:>4d}    {c[0] + dv[0]:8.3f}{c[1] + dv[1]:8.3f}{c[2] + dv[2]:8.3f}  1.00  0.00          {el:>2s}")
+    t_lig = "\n".join(l for l in structures.read("sample-issue-140.pdb").splitlines() if l[:3] != "END") + "\n" + "\n".join(lig) + "\nEND\n"
+    study("sample-issue-140 + ligands with Se / P / Si", t_lig, [], 1)
     t2 = structures.read("1HPX.pdb")
     study("1HPX (ligand KNI)", t2, [], 2 if chk.thorough else 1, axis_bonds=one_neighbour_bonds(t2, True, 3 if chk.thorough else 1))
     if chk.thorough:
